@@ -259,6 +259,9 @@ func (x *Exec) specQualified(s *State, alias, name string, sc *specCtx) (*Value,
 }
 
 func (x *Exec) specField(s *State, base *Value, name string) *Value {
+	if base.K == KOpaque && base.Dyn != nil && x.ifaceOver[base.Dyn] != nil {
+		base = base.Dyn
+	}
 	if base.K == KPtr {
 		if base.Cell == 0 {
 			panic(execPanic{"contract: field of nil pointer"})
@@ -353,7 +356,7 @@ func (x *Exec) specBin(s *State, e *CExpr, sc *specCtx) *Value {
 		return boolV(t)
 	}
 	if l.K != KPrim || r.K != KPrim {
-		panic(execPanic{"contract: arithmetic on non-primitive values (" + e.Name + ")"})
+		panic(execPanic{fmt.Sprintf("contract: arithmetic on non-primitive values (%s): kinds %v %v types %v %v", e.Name, l.K, r.K, l.Typ, r.Typ)})
 	}
 	switch e.Name {
 	case "<":
@@ -634,7 +637,16 @@ func (x *Exec) specWorld(s *State) *World {
 func (x *Exec) specMethod(s *State, recv *Value, name string, args []*Value) *Value {
 	t := recv.Typ
 	if recv.K == KOpaque && recv.Dyn != nil && recv.Dyn.Typ != nil {
-		t = recv.Dyn.Typ
+		if ov := x.ifaceOver[recv.Dyn]; ov != nil {
+			if ov[name] {
+				panic(execPanic{"contract: method " + name + " is overridden by an implementer of the interface and has no model"})
+			}
+			recv = recv.Dyn
+		}
+		t = recv.Typ
+		if recv.K == KOpaque && recv.Dyn != nil && recv.Dyn.Typ != nil {
+			t = recv.Dyn.Typ
+		}
 	}
 	if t == nil {
 		// untyped mathematical value: allow Int-like method names on integers
